@@ -66,6 +66,7 @@ def run_case(case: Dict[str, Any], ctx) -> None:
         prog = progs.gen_program(rng, case["profile"])
     feats = progs.features(prog)
     m, src = progs.build_module(prog, case["seed"])
+    ctx.sample({"emitted_source": src, "features": feats})
     inputs = progs.make_inputs(prog, case["seed"] + 5)
     before = {k: v.detach().clone() for k, v in m.state_dict().items()}
 
